@@ -152,6 +152,11 @@ def run(ctx):
             t = s.targets[0]
             enq = t.qualname == r.send.qualname or t.qualname == r.send_events.qualname or \
                 (isinstance(s.call.func, ast.Attribute) and s.call.func.attr in ("put", "put_nowait") and "_event_queue" in norm(s.call.func.value))
+            via_deliver = t.qualname == deliver.qualname and s.call.args and norm(s.call.args[0]) == "self"
+            if via_deliver and not _is_spawned_arg(f, s.call):
+                n += 1
+                c.ob("R2", True, f, f"self-send:{s.callee_text}", "self-send goes through _deliver (counted by the raise-chain breaker)", s.call)
+                continue
             if not enq:
                 continue
             if _is_spawned_arg(f, s.call):
@@ -178,7 +183,7 @@ def run(ctx):
             lim_ok = True
     c.ob("R2", bool(brk) and lim_ok, dr, "breaker-compares-with-max-iterations", "the run loop cuts a raise chain longer than max_iterations" if brk and lim_ok else
          "the run loop's raise-chain breaker is missing or not tied to max_iterations", dr.node)
-    c.floor("R2", "inline self-enqueue sites in the async macrostep closure", n, 1)
+    c.floor("R2", "inline self-enqueue sites in the async macrostep closure", n, 2)
     # ---- R3 the bound must not discard external events (sync) ----------------------------
     sd = roles(ctx, "SyncInterpreter").drain
     for w in attr_writes(sd):
